@@ -17,5 +17,6 @@ package config
 //@ func bind
 //@ props C06
 //@ abstract-calls .*
-//@ site call Get assert key == "dst" ==> dst
+//@ site call StructTag.Get assert key == "dst" ==> dst
+//@ site call StructTag.Lookup assert key == "dst" ==> dst
 //@ site call bind assert dst == caller_dst
